@@ -13,8 +13,18 @@ MeasureOK == pc = "done" => \A vs \in MeasureOrders : CellIdentities(Own, Planes
 \* non-vacuity: for the first prime no cell is skipped
 MeasurePrimeUsable == pc = "done" => \A vs \in MeasureOrders : PrimeOK(Primes[1], PlanesOf, vs, PointsOf(vs))
 
-VolRecord == LET vs == SortTriples({v.t : v \in verts})
-             IN [G |-> inp.G, dim |-> inp.dim, per |-> inp.per, gens |-> inp.gens, id |-> inp.id, cell |-> c,
-                 r |-> Vol6Residues(Own, PlanesOf, vs, PointsOf(vs))]
+\* one line per finished cell: residues of 6 x volume, and per neighbour plane (j, s) the residues of the face's area vector
+\* (twice the area, along the normal), of its signed area against the plane normal and of its first moments about the generator
+VolRecord ==
+    LET vs == SortTriples({v.t : v \in verts})
+        hs == PointsOf(vs)
+        NPr == Len(Primes)
+        ok == [k \in 1..NPr |-> PrimeOK(Primes[k], PlanesOf, vs, hs)]
+        T  == [k \in 1..NPr |-> IF ok[k] THEN Tables(Primes[k], Own, PlanesOf, vs, hs).wf ELSE [p \in 1..Len(planes) |-> ZeroAcc]]
+    IN [G |-> inp.G, dim |-> inp.dim, per |-> inp.per, gens |-> inp.gens, id |-> inp.id, cell |-> c,
+        r |-> [k \in 1..NPr |-> IF ok[k] THEN SumTab(Primes[k], T[k], 1).v ELSE -1],
+        f |-> {[j |-> planes[p].j, s |-> planes[p].s,
+                av |-> [k \in 1..NPr |-> T[k][p].av], a |-> [k \in 1..NPr |-> T[k][p].a], a1 |-> [k \in 1..NPr |-> T[k][p].a1]] :
+               p \in {q \in 1..Len(planes) : planes[q].w = 0}}]
 EmitVol == (Emit /\ pc = "done") => PrintT(<<"VOL", ToJson(VolRecord)>>)
 =============================================================================
